@@ -130,15 +130,37 @@ func saveHeightValSet(db kaidb.KeyValueWriter, height uint64, kind byte, lastHei
 // loadHeightValSet returns the exact validator set saved with the state of the given height,
 // or nil if the state was written before these records existed.
 func loadHeightValSet(db kaidb.Reader, height uint64, kind byte) *types.ValidatorSet {
+	valSet, _ := loadHeightValSetInfo(db, height, kind)
+	return valSet
+}
+
+func loadHeightValSetInfo(db kaidb.Reader, height uint64, kind byte) (*types.ValidatorSet, uint64) {
 	valInfo := rawdb.ReadConsensusHeightValSet(db, height, kind)
 	if valInfo == nil || valInfo.ValidatorSet == nil {
-		return nil
+		return nil, 0
 	}
 	valSet, err := types.ValidatorSetFromProto(valInfo.ValidatorSet)
 	if err != nil {
-		return nil
+		return nil, 0
 	}
-	return valSet
+	return valSet, valInfo.LastHeightChanged
+}
+
+// loadValSet loads one validator set of the state at the given height together with the height
+// its membership last changed: from the per-height record, or else from the hash-keyed record.
+func loadValSet(db kaidb.Reader, height uint64, kind byte, infoHash []byte) (*types.ValidatorSet, uint64) {
+	if valSet, lastHeightChanged := loadHeightValSetInfo(db, height, kind); valSet != nil {
+		return valSet, lastHeightChanged
+	}
+	valInfo := rawdb.ReadConsensusValidatorsInfo(db, common.BytesToHash(infoHash))
+	if valInfo == nil {
+		panic(fmt.Errorf(`validator set %X of the consensus state at height %v not found`, infoHash, height))
+	}
+	valSet, err := types.ValidatorSetFromProto(valInfo.ValidatorSet)
+	if err != nil {
+		panic(err)
+	}
+	return valSet, valInfo.LastHeightChanged
 }
 
 // PruneState prunes consensus state height in range of [from, to)
@@ -240,39 +262,14 @@ func loadStateAtHeight(db kaidb.Database, height uint64) *LatestBlockState {
 	// At height 0 there is no last block: the genesis state is created (MakeGenesisState) and saved with
 	// a zero LastBlockID and AppHash, which is what the first block refers to; keep it that way on reload.
 
-	lValsInfo := rawdb.ReadConsensusValidatorsInfo(db, common.BytesToHash(sp.LastValidatorsInfoHash))
+	// Validator sets: the exact per-height records when present (they do not depend on the hash-keyed
+	// records, which pruning may have removed together with an older state of the same membership),
+	// otherwise the hash-keyed records of states written before the per-height records existed.
 	if state.LastBlockHeight > 0 {
-		state.LastValidators, err = types.ValidatorSetFromProto(lValsInfo.ValidatorSet)
-		if err != nil {
-			panic(err)
-		}
+		state.LastValidators, _ = loadValSet(db, height, rawdb.HeightValSetLast, sp.LastValidatorsInfoHash)
 	}
-
-	valsInfo := rawdb.ReadConsensusValidatorsInfo(db, common.BytesToHash(sp.ValidatorsInfoHash))
-	state.Validators, err = types.ValidatorSetFromProto(valsInfo.ValidatorSet)
-	if err != nil {
-		panic(err)
-	}
-
-	nValsInfo := rawdb.ReadConsensusValidatorsInfo(db, common.BytesToHash(sp.NextValidatorsInfoHash))
-	state.NextValidators, err = types.ValidatorSetFromProto(nValsInfo.ValidatorSet)
-	if err != nil {
-		panic(err)
-	}
-	state.LastHeightValidatorsChanged = nValsInfo.LastHeightChanged
-
-	// prefer the exact per-height sets (with proposer priorities) when present
-	if state.LastBlockHeight > 0 {
-		if vs := loadHeightValSet(db, height, rawdb.HeightValSetLast); vs != nil {
-			state.LastValidators = vs
-		}
-	}
-	if vs := loadHeightValSet(db, height, rawdb.HeightValSetCurrent); vs != nil {
-		state.Validators = vs
-	}
-	if vs := loadHeightValSet(db, height, rawdb.HeightValSetNext); vs != nil {
-		state.NextValidators = vs
-	}
+	state.Validators, _ = loadValSet(db, height, rawdb.HeightValSetCurrent, sp.ValidatorsInfoHash)
+	state.NextValidators, state.LastHeightValidatorsChanged = loadValSet(db, height, rawdb.HeightValSetNext, sp.NextValidatorsInfoHash)
 
 	cparams := rawdb.ReadConsensusParamsInfo(db, common.BytesToHash(sp.ConsensusParamsInfoHash))
 	if cparams == nil {
